@@ -40,6 +40,8 @@ def cases(tier, seed):
                 k += 1
                 N = int(rng.integers(40, 160 if tier == "quick" else 600))
                 nch = int(rng.choice([8, 16, 32]))
+                if nbits in (8, 32) and t in ("invert_freq", "apply_channel_mask", "extract_samps", "extract_chans", "remove_zerodm", "subband") and rng.random() < 0.35:
+                    nch = int(rng.choice([1, 3, 5, 7, 13]))  # odd channel counts are legal at whole-byte depths
                 nfiles = int(rng.choice([1, 1, 2, 3]))
                 cuts = sorted(rng.choice(np.arange(1, N), size=nfiles - 1, replace=False).tolist()) if nfiles > 1 else []
                 split = [b - a for a, b in zip([0] + cuts, cuts + [N])]
@@ -236,7 +238,8 @@ def run_case(case, ctx):
         elif mode == "mean":
             tol = np.full_like(want, 1.0 - 1e-9) if nbits_o != 32 else 1e-6 + 1e-6 * np.abs(want)
         else:
-            tol = np.full_like(want, 1.0 + 1e-6) if nbits_o != 32 else 1e-3 + 1e-4 * np.abs(want)
+            # one quantisation level + float32 rounding of the bandpass/weights the kernel receives (|z*w|, |b| <= 2^nbits; eps32 ~ 1.2e-7)
+            tol = np.full_like(want, 1.0 + 1e-4) if nbits_o != 32 else 1e-3 + 1e-4 * np.abs(want)
         ok = bool(np.all(err <= tol))
         if not ok:
             bad = np.argwhere(~(err <= tol))
